@@ -76,10 +76,13 @@ def parse_strace(path, datadir):
         if call == "openat" and ret >= 0:
             pm = re.search(r'"((?:\\x[0-9a-f]{2})*)"', args)
             p = unx(pm.group(1)).decode(errors="replace") if pm else ""
-            if p.startswith(datadir) and DBNAME in p:
-                fds[ret] = os.path.basename(p); pos[ret] = 0
+            if p.startswith(datadir + "/") and "O_DIRECTORY" not in args:
+                # every regular file below the data directory (the database, its WAL / journal, and
+                # whatever else the storage layer keeps there), named relative to the directory
+                rel = os.path.relpath(p, datadir)
+                fds[ret] = rel; pos[ret] = 0
                 if "O_CREAT" in args:
-                    ev.append(("create", os.path.basename(p)))
+                    ev.append(("create", rel))
         elif call == "close":
             fd = int(args.split(",")[0]); fds.pop(fd, None)
         elif call in ("pwrite64", "write") and ret >= 0:
@@ -105,8 +108,12 @@ def parse_strace(path, datadir):
         elif call in ("unlink", "unlinkat") and ret == 0:
             pm = re.search(r'"((?:\\x[0-9a-f]{2})*)"', args)
             p = unx(pm.group(1)).decode(errors="replace") if pm else ""
-            if DBNAME in p:
-                ev.append(("unlink", os.path.basename(p)))
+            if p.startswith(datadir + "/"):
+                ev.append(("unlink", os.path.relpath(p, datadir)))
+        elif call in ("rename", "renameat", "renameat2") and ret == 0:
+            names = [unx(x).decode(errors="replace") for x in re.findall(r'"((?:\\x[0-9a-f]{2})*)"', args)]
+            if len(names) >= 2 and names[0].startswith(datadir + "/") and names[1].startswith(datadir + "/"):
+                ev.append(("rename", os.path.relpath(names[0], datadir), os.path.relpath(names[1], datadir)))
     return ev
 
 
@@ -128,6 +135,9 @@ def apply(files, e):
             f.extend(b"\0" * (e[2] - len(f)))
     elif k == "unlink":
         files.pop(e[1], None)
+    elif k == "rename":
+        if e[1] in files:
+            files[e[2]] = files.pop(e[1])
 
 
 def images(ev, rng, tier):
@@ -192,6 +202,15 @@ def images(ev, rng, tier):
             if e[1] in durable:
                 unlinked_pending.add(e[1])
             # durable copy stays: the deletion may not have reached the disk
+        elif e[0] == "rename":
+            # the new name shows the old file's content once the rename is durable; until the next sync
+            # both outcomes are possible: recorded as a pending whole-file write of the new name plus a
+            # not-yet-durable deletion of the old one
+            content = bytes(cur.get(e[2], b""))
+            pending[e[2]] = [("trunc", e[2], 0), ("write", e[2], 0, content)]
+            pending[e[1]] = []
+            if e[1] in durable:
+                unlinked_pending.add(e[1])
     yield (len(ev), "proc", {f: bytes(b) for f, b in cur.items() if not f.endswith("-shm")})
 
 
@@ -270,7 +289,7 @@ def run_c04(tier, seed, replay=None):
             text = "\n".join(sym) + "\n"
             datadir = os.path.join(hd, "data")
             p = subprocess.run(["strace", "-f", "-xx", "-s", "400000000", "-e",
-                                "trace=openat,close,pwrite64,write,fsync,fdatasync,ftruncate,unlink,unlinkat,clone,clone3",
+                                "trace=openat,close,pwrite64,write,fsync,fdatasync,ftruncate,unlink,unlinkat,rename,renameat,renameat2,clone,clone3",
                                 "-o", os.path.join(hd, "strace.log"), binp] + (["bin"] if via_http else ["lib", "sqlite"]),
                                input=text, capture_output=True, text=True,
                                env=dict(ENV, TSS_KEEP_DIR=datadir, VERIF_SEED=str(seed + hi), TSS_SERVER_BIN=sbin), timeout=1200)
@@ -298,6 +317,7 @@ def run_c04(tier, seed, replay=None):
                 d = os.path.join(hd, f"img{len(imgs)}")
                 os.makedirs(d)
                 for f, b in files.items():
+                    os.makedirs(os.path.dirname(os.path.join(d, f)) or d, exist_ok=True)
                     open(os.path.join(d, f), "wb").write(b)
                 inside = 0 < pt < len(ev) and ev[pt - 1][0] != "ack"
                 imgs.append({"dir": d, "point": pt, "kind": kind, "acked": ack_at[pt], "inside": inside,
